@@ -146,7 +146,7 @@ def _weights(ck: Checker, prog: Program, cls):
             return
         hv = lp.target.id
         TL = Translator(env=dict(T.env))
-        forward_substitute([st for st in lp.body if isinstance(st, ast.Assign)], TL)
+        forward_substitute([st for st in lp.body if isinstance(st, (ast.Assign, ast.AugAssign))], TL)
         ext = [c for c in calls_in(lp) if call_name(c) == "extend" and isinstance(c.func.value, ast.Name)]
         if len(ext) != 1:
             raise AnalysisError(f"{fq}: expected <list>.extend([...]*n) in the loop")
@@ -338,7 +338,7 @@ def _curves(ck: Checker, prog: Program, cls):
             ck.violation("C11.R2", fq, norm_key(rets[0]), "does not return the array filled by the loop", loc=m.loc(rets[0]))
             continue
         T = S.translator_for(prog, m, cls)
-        forward_substitute([st for st in m.node.body if isinstance(st, ast.Assign)], T)
+        forward_substitute([st for st in m.node.body if isinstance(st, (ast.Assign, ast.AugAssign))], T)
         idx = lp.target.id if isinstance(lp.target, ast.Name) else None
         # loop covers every frequency index
         it_ok = isinstance(lp.iter, ast.Call) and call_name(lp.iter) == "range" and len(lp.iter.args) == 1 \
